@@ -400,10 +400,13 @@ def c12_table(seed, scheme, parent_enc, ndim, naming, extras, pos_order, malform
         else:
             r["parent_id"] = ids[p]
         if extras:
-            r["score"] = 0.5 * i
+            # "sparse": the custom value is missing (NaN) on every second row
+            r["score"] = None if (extras == "sparse" and i % 2 == 1) else 0.5 * i
             r["vec"] = f"[{i}, {i + 1}]"
         rows.append(r)
     cols = ["time"] + axes + ["id", "parent_id"] + (["score", "vec"] if extras else [])
+    if pos_order == "rev":
+        cols = list(reversed(cols))  # column order of the table must not matter either
     df = pd.DataFrame(rows, columns=cols)
     if parent_enc == "nan" and scheme in ("seq", "gaps", "zero", "desc"):
         df["parent_id"] = df["parent_id"].astype("float")  # NaN for roots, like pd.read_csv does
@@ -499,7 +502,12 @@ def _c12_compare(tr, exp, scheme, case, cls, check):
             out.append(vio("C12", "position", f"node {node}: position {tr.get_position(node)} != {[r[a] for a in order]} (mapped order {order})", case, check, cls))
             break
         if "score" in r:
-            if norm(tr.get_node_attr(node, "score")) != norm(r["score"]):
+            got = tr.get_node_attr(node, "score")
+            if r["score"] is None:
+                if not (got is None or (isinstance(got, float) and got != got)):
+                    out.append(vio("C12", "custom-property", f"node {node}: score {got!r} for a missing source cell", case, check, cls))
+                    break
+            elif norm(got) != norm(r["score"]):
                 out.append(vio("C12", "custom-property", f"node {node}: score {tr.get_node_attr(node, 'score')} != {r['score']}", case, check, cls))
                 break
             i = rows.index(r)
@@ -519,9 +527,11 @@ def c12_cases(tier):
             for penc in ("minus1", "nan"):
                 for ndim in (3, 4):
                     for naming in ("std", "renamed", "id-renamed"):
-                        for extras in (False, True):
+                        for extras in (False, True, "sparse"):
                             for order in ("std", "rev"):
                                 if q and ndim == 4 and (extras or order == "rev") and naming != "std":
+                                    continue
+                                if extras == "sparse" and (penc == "nan" or (q and naming == "id-renamed")):
                                     continue
                                 yield ("df", sj, scheme, penc, ndim, naming, extras, order, None, 0)
     small = list(worlds.forests(3, 3, 1))
